@@ -629,6 +629,25 @@ func accessors(scen string, in In, tables [][]FSpec, paras []reflect.Value) []*m
 				bad("packages.Get("+key+")", w, g)
 			}
 		}
+		// one variable holding the entries one after the other (a streaming loop, `e = list[i]`): every entry answers for itself
+		var e control.BinaryIndex
+		for pi := range paras {
+			e = *paras[pi].Addr().Interface().(*control.BinaryIndex)
+			getE := map[string]func() dependency.Dependency{"Depends": e.GetDepends, "Pre-Depends": e.GetPreDepends, "Suggests": e.GetSuggests,
+				"Breaks": e.GetBreaks, "Replaces": e.GetReplaces, "Conflicts": e.GetConflicts, "Built-Using": e.GetBuiltUsing}
+			for ei, key := range indexDepKeys {
+				w := ""
+				if pi == 0 && ei < len(in.Extra) && in.Extra[ei] >= 0 {
+					w = dv[in.Extra[ei]].Want
+				}
+				for rep := 0; rep < 2; rep++ {
+					d := getE[key]()
+					if g := gen.CanonDep(&d); g != w {
+						bad("packages.Get("+key+")", fmt.Sprintf("entry %d in a reused variable: %s", pi, w), g)
+					}
+				}
+			}
+		}
 	case "sources":
 		s := paras[0].Addr().Interface().(*control.SourceIndex)
 		get := map[string]func() dependency.Dependency{"Build-Depends": s.GetBuildDepends, "Build-Depends-Arch": s.GetBuildDependsArch, "Build-Depends-Indep": s.GetBuildDependsIndep}
@@ -641,6 +660,23 @@ func accessors(scen string, in In, tables [][]FSpec, paras []reflect.Value) []*m
 			d := get[key]()
 			if g := gen.CanonDep(&d); g != w {
 				bad("sources.Get("+key+")", w, g)
+			}
+		}
+		var e control.SourceIndex
+		for pi := range paras {
+			e = *paras[pi].Addr().Interface().(*control.SourceIndex)
+			getE := map[string]func() dependency.Dependency{"Build-Depends": e.GetBuildDepends, "Build-Depends-Arch": e.GetBuildDependsArch, "Build-Depends-Indep": e.GetBuildDependsIndep}
+			for ei, key := range sourceDepKeys {
+				w := ""
+				if pi == 0 && ei < len(in.Extra) && in.Extra[ei] >= 0 {
+					w = dv[in.Extra[ei]].Want
+				}
+				for rep := 0; rep < 2; rep++ {
+					d := getE[key]()
+					if g := gen.CanonDep(&d); g != w {
+						bad("sources.Get("+key+")", fmt.Sprintf("entry %d in a reused variable: %s", pi, w), g)
+					}
+				}
 			}
 		}
 	case "debcontrol":
